@@ -1247,6 +1247,9 @@ class PyExec:
             return o.fn(num(idx))
         if isinstance(o, tuple) and len(o) == 2 and isinstance(o[0], str) and o[0] == "where-first":
             return o[1]
+        if isinstance(o, Opaque) and isinstance(idx, tuple) and len(idx) == 2 and isinstance(idx[0], slice) and isinstance(idx[1], Opaque):
+            # x[:, order]: columns taken in the given order
+            return Opaque(o.why + "[:, index array]", idx=("T", ("take", ("T", o.idx), idx[1].id)))
         if isinstance(o, Opaque) and isinstance(idx, Opaque):
             return Opaque(o.why + "[index array]", idx=("take", o.idx, idx.id))     # fancy indexing: a reordered copy
         if isinstance(o, Opaque):
